@@ -61,7 +61,9 @@ class Budget(object):
     return None
 
   def _alarm(self, signum, frame):
-    if self.active and self.tripped:
+    # only ever interrupt code of the system under test, never the harness (a raise inside the harness's own
+    # unwinding could leave the timer armed); the spinning code is POX code, so a later tick lands there
+    if self.active and self.tripped and frame is not None and frame.f_code.co_filename.startswith(REPO):
       raise Diverged()
 
   def __enter__(self):
